@@ -1584,6 +1584,8 @@ class vGeo:
             raise ValueError(f"Expected 'float;float' , got: {ical}") from e
 
     def __eq__(self, other):
+        if not isinstance(other, vGeo):
+            return False
         return self.to_ical() == other.to_ical()
 
     def __repr__(self):
